@@ -2,7 +2,7 @@
 Spec: server/AcceptDispatch.tla with commands, injected accept errors, back-off deadlines, TCP and UDS listeners."""
 import srvflow
 
-INV = ["T_C05_PausedNoDispatch", "T_C05_UdsReachable", "T_C05_ListenerLive", "T_C05_BackoffExpires", "T_C05_WakesForEarliestDeadline", "T_C08_NoPanic", "T_C08_NoSpin"]
+INV = ["T_C05_PausedNoDispatch", "T_C05_PausedAsCommanded", "T_C05_UdsReachable", "T_C05_ListenerLive", "T_C05_BackoffExpires", "T_C05_WakesForEarliestDeadline", "T_C08_NoPanic", "T_C08_NoSpin"]
 DESIGN = ["MC_cmd_quick.cfg", "MC_cmd_c3.cfg", "MC_err_c3.cfg", "MC_pause_2l.cfg"]
 EDGES = ["MC_cmd_quick.cfg", "MC_err_c3.cfg", "MC_pause_2l.cfg"]
 THOROUGH = ["MC_cmd_2l.cfg", "MC_cmd_w2.cfg", "MC_cmd_w2b.cfg", "MC_cmd_fault.cfg", "MC_cmd_w2l2e2.cfg"]
